@@ -129,58 +129,50 @@ func (e *Encoder) WriteData(data interface{}) (int, error) {
 		data = v.Interface()
 	}
 
+	// the value is read through reflection by kind, so that a named scalar type
+	// (type Celsius float64) is written like its underlying type
 	switch v.Kind() {
 	case reflect.Bool:
-		value := data.(bool)
-		return e.writeBoolean(value)
+		return e.writeBoolean(v.Bool())
 	case reflect.String:
-		value := data.(string)
-		return e.writeString(value)
+		return e.writeString(v.String())
 	case reflect.Int8: // as int
-		value := int32(data.(int8))
-		return e.writeInt(value)
+		return e.writeInt(int32(v.Int()))
 	case reflect.Int16: // as int
-		value := int32(data.(int16))
-		return e.writeInt(value)
+		return e.writeInt(int32(v.Int()))
 	case reflect.Int32: // as int
-		value := data.(int32)
-		return e.writeInt(value)
+		return e.writeInt(int32(v.Int()))
 	case reflect.Int: // as int
-		iv := data.(int)
+		iv := int(v.Int())
 		if int(int32(iv)) != iv {
 			return 0, newCodecError("WriteData", "int value %d out of int32 range", iv)
 		}
 		return e.writeInt(int32(iv))
 	case reflect.Uint8: // as int
-		value := int32(data.(uint8))
-		return e.writeInt(value)
+		return e.writeInt(int32(v.Uint()))
 	case reflect.Uint16: // as int
-		value := int32(data.(uint16))
-		return e.writeInt(value)
+		return e.writeInt(int32(v.Uint()))
 	case reflect.Int64: // as long
-		value := data.(int64)
-		return e.writeLong(value)
+		return e.writeLong(v.Int())
 	case reflect.Uint: // as long
-		uv := data.(uint)
+		uv := uint(v.Uint())
 		if uint64(uv) > math.MaxInt64 {
 			return 0, newCodecError("WriteData", "uint value %d out of long range", uv)
 		}
 		return e.writeLong(int64(uv))
 	case reflect.Uint32: // as long
-		value := int64(data.(uint32))
-		return e.writeLong(value)
+		return e.writeLong(int64(v.Uint()))
 	case reflect.Uint64: // as long
-		uv := data.(uint64)
+		uv := v.Uint()
 		if uv > math.MaxInt64 {
 			return 0, newCodecError("WriteData", "uint64 value %d out of long range", uv)
 		}
 		return e.writeLong(int64(uv))
 	case reflect.Float32:
-		value := data.(float32)
-		return e.writeDouble(float64(value))
+		// through float32, so that the value widens exactly as a float32 does
+		return e.writeDouble(float64(float32(v.Float())))
 	case reflect.Float64:
-		value := data.(float64)
-		return e.writeDouble(value)
+		return e.writeDouble(v.Float())
 	case reflect.Slice, reflect.Array:
 		return e.writeList(source)
 	case reflect.Map:
